@@ -1,11 +1,12 @@
-\* C11 quick: the proposed repair of F4 (Variant = "patched"), same scope as MC_RpcOoo_asis_quick.cfg, every invariant incl. the strict NoAccessAfterReturn.
+\* C11 quick: the proposed repair of F4 (Variant = "patched"): every invariant incl. the strict NoAccessAfterReturn.
+\* 3 callers, responses in all orders (header and body separate arrivals), 1 deadline(s) may pass anywhere, 1 stream error(s), 0 unknown-or-duplicate response(s)
 SPECIFICATION Spec
 CONSTANTS
   C = {c1, c2, c3}
   Timed = {c1, c2, c3}
   MaxExpire = 1
   MaxErr = 1
-  MaxBogus = 1
+  MaxBogus = 0
   Variant = "patched"
   EarlyResponse = FALSE
 INVARIANTS TypeOK OwnResponse TagsUnique FailureIsolated MapLive OneReader LeaderHandover QueueSane NoAccessAfterReturn
